@@ -1118,7 +1118,7 @@ func suitePath(tier string, r *rng) func(emit func(pureCase)) {
 		nRand = 300000
 	}
 	alpha := []string{"a", "/", ".", "%2E", "%2F", "%20", "%0D%0A", "%2A", "%", "%zz", "%4", "*", "b", "%3F", "+", "\x80"}
-	prefixes := []string{"/api/", "/", "/x/y/"}
+	prefixes := []string{"/api/", "/", "/x/y/", "/api/v1.0/"}
 	return func(emit func(pureCase)) {
 		one := func(path, query, prefix string) {
 			rid := server.PathToRID(path, query, prefix)
